@@ -494,7 +494,10 @@ impl Scheduler {
                     mem::drop(ready);
 
                     if self.core.claim_pending_queue(queue) {
-                        // We're now running the queue: try to run jobs on it until it's ready
+                        // We're now running the queue (if one of its jobs panics, the queue must be marked as panicked)
+                        let _active = ActiveQueue { queue: &*queue };
+
+                        // Try to run jobs on it until it's ready
                         while !*ready_mutex.lock().unwrap() {
                             match JobQueue::run_one_job_now(queue) {
                                 JobStatus::Finished | JobStatus::NoJobsWaiting => { },
